@@ -19,7 +19,7 @@ CHECKS = {
             dict(name="openssl", target="h_aes", args=["--prop", "C02", "--expect", "portable"],
                  cpu=["X86_CPUID", "X86_CPUID_COUNT"]),
         ],
-        deadline=dict(quick=150, thorough=600),
+        deadline=dict(quick=300, thorough=900),
         parallel_runs=1,
         bounds=dict(
             quick="block: 393 keys (all single-bit 128/256-bit keys, 0.., f.., FIPS-197 B/C keys, LCG) x 133 blocks (all single-bit, 0.., f.., "
